@@ -391,7 +391,7 @@ var concNilFonts = []string{"cffnoenc", "cffemptyenc", "cffnil", "cffnocmap", "s
 // others, .notdef included), so most subsets contain no hinted glyph.  "cidread" is a CID-keyed
 // CFF font with three FD ranges that went through Write and sfnt.Read, so that its FDSelect is
 // the closure built by the reader (format 3).
-var concFinalFonts = []string{"sttfunhint", "cidread"}
+var concFinalFonts = []string{"sttfunhint", "cidread", "cidfd7"}
 
 // concStripHints removes the TrueType instructions from simple glyphs (all but `keep`).
 func concStripHints(o *glyf.Outlines, keep map[glyph.ID]bool) {
@@ -819,6 +819,44 @@ func concFontRaw(id string) *sfnt.Font {
 		case "cffallx":
 			concAddAll(f, 1)
 		}
+	case id == "cidfd7": // CID-keyed, seven private dictionaries, FD = gid mod 7
+		f = debug.MakeSimpleFont()
+		f.CreationTime, f.ModificationTime = concFixedTime, concFixedTime
+		concMultiFD(f)
+		o := f.Outlines.(*cff.Outlines)
+		p0 := o.Private[0]
+		o.Private, o.FontMatrices = nil, nil
+		for i := 0; i < 7; i++ {
+			p := *p0
+			p.StdHW, p.StdVW, p.BlueFuzz = float64(40+i), float64(80+2*i), int32(1+i%3)
+			o.Private = append(o.Private, &p)
+			o.FontMatrices = append(o.FontMatrices, matrix.Matrix{1 + float64(i)/16, 0, 0, 1, 0, 0})
+		}
+		o.FDSelect = func(gid glyph.ID) int { return int(gid) % 7 }
+	case id == "cffbig":
+		// a GSUB lookup list far beyond 64 kB: four multiple-substitution lookups of about 36 kB
+		// each, so that the encoder has to replace the subtables of some lookups by extension
+		// records (never put into the random pools: applying it would blow texts up)
+		f = debug.MakeSimpleFont()
+		f.CreationTime, f.ModificationTime = concFixedTime, concFixedTime
+		var ll gtab.LookupList
+		for k := 0; k < 4; k++ {
+			sub := &gtab.Gsub2_1{Cov: coverage.Table{}}
+			for i := 0; i < 30; i++ {
+				sub.Cov[glyph.ID(2+i)] = i
+				seq := make([]glyph.ID, 600)
+				for j := range seq {
+					seq[j] = glyph.ID(1 + (i+j+k)%30)
+				}
+				sub.Repl = append(sub.Repl, seq)
+			}
+			ll = append(ll, &gtab.LookupTable{Meta: &gtab.LookupMetaInfo{LookupType: 2, LookupFlags: gtab.LookupFlags(k & 1 * 8)}, Subtables: []gtab.Subtable{sub}})
+		}
+		f.Gsub = &gtab.Info{
+			ScriptList:  map[language.Tag]*gtab.Features{language.MustParse("und-Zzzz"): {Required: 0}},
+			FeatureList: []*gtab.Feature{{Tag: "test", Lookups: []gtab.LookupIndex{0, 1, 2, 3}}},
+			LookupList:  ll,
+		}
 	case id == "cidread":
 		f = debug.MakeSimpleFont()
 		f.CreationTime, f.ModificationTime = concFixedTime, concFixedTime
@@ -1096,6 +1134,56 @@ var concOps = []concOp{
 	}},
 	{"glyphnames", "", func(f *sfnt.Font, r *concRng) string {
 		return concShort(strings.Join(f.MakeGlyphNames(), ","))
+	}},
+	{"subsetreuse", "", func(f *sfnt.Font, r *concRng) string {
+		// a worker makes several subsets of the shared font RE-USING ITS OWN glyph buffer between
+		// the calls, and writes them only afterwards; each must equal the subset made from a fresh
+		// slice and written at once
+		n := f.NumGlyphs()
+		buf := make([]glyph.ID, 0, 64)
+		var subs []*sfnt.Font
+		var want []string
+		write := func(x *sfnt.Font) string {
+			return guard(func() string {
+				var b bytes.Buffer
+				if x.IsCFF() {
+					err := x.AsCFF().Write(&b)
+					return fmt.Sprintf("cff,err=%v,%s", err, concSum(b.Bytes()))
+				}
+				_, err := x.Write(&b)
+				return fmt.Sprintf("sfnt,err=%v,%s", err, concSum(b.Bytes()))
+			})
+		}
+		for i := 0; i < 3; i++ {
+			buf = append(buf[:0], 0)
+			seen := map[int]bool{0: true}
+			for len(buf) < 12 && len(buf) < n {
+				g := 1 + r.intn(n-1)
+				if !seen[g] {
+					seen[g] = true
+					buf = append(buf, glyph.ID(g))
+				}
+			}
+			sort.Slice(buf, func(a, b int) bool { return buf[a] < buf[b] })
+			fresh := append([]glyph.ID(nil), buf...)
+			res := guard(func() string { want = append(want, write(f.Subset(fresh))); return "" })
+			if res != "" {
+				return res // Subset panics on this font ("not implemented"): same outcome every time
+			}
+			subs = append(subs, f.Subset(buf))
+		}
+		for i := range buf {
+			buf[i] = 0 // and finally the buffer is wiped
+		}
+		var out []string
+		for i, x := range subs {
+			got := write(x)
+			if got != want[i] {
+				return fmt.Sprintf("notalone:subset=%d,reused-buffer=%s,fresh-slice=%s", i, got, want[i])
+			}
+			out = append(out, got)
+		}
+		return concShort(strings.Join(out, ";"))
 	}},
 	{"pdfmetrics", "", func(f *sfnt.Font, r *concRng) string {
 		// GlyphWidthPDF and GlyphBBoxPDF of EVERY glyph, many times over, in an order that keeps
@@ -1817,6 +1905,15 @@ func areaConc(c *Ctx) {
 		pure(op, "cidread")
 		i++
 	}
+	for _, id := range []string{"cidfd7", "cidmulti", "cidread", "cid", "cffsub", "sttf"} {
+		pure("subsetreuse", id)
+		i++
+	}
+	pure("subsetreuse", "cidfd7")
+	pure("write", "cidfd7")
+	pure("write", "cffbig") // lookup list > 64 kB: extension records
+	pure("clone", "cffbig")
+	i += 4
 	// completeness of the snapshot itself (a planted write in every slice/map must change the hash)
 	self := []string{"cffalln", "cffall5", "cffsub", "cid"}
 	if thorough {
@@ -1904,6 +2001,14 @@ func areaConc(c *Ctx) {
 	}
 	// a CID-keyed font READ FROM A FILE (the reader's FDSelect closure), many goroutines asking for
 	// glyphs of different FD ranges at the same time
+	for _, fa := range [][2]string{{"cidfd7", "subsetreuse,write,subsetreuse"}, {"cidmulti", "subsetreuse,pdfmetrics"}, {"cffbig", "write"}} {
+		th := c.Rng.Range(4, 10)
+		out := c.Case(Direct, "conc.parallel", fmt.Sprintf("font=%s threads=%d ops=%s seed=%d", fa[0], th, fa[1], c.Rng.U64()>>1), true)
+		c.Stat("parallel.threads", bucket(th))
+		c.Stat("parallel.font", fa[0])
+		c.Stat("parallel.result", strings.SplitN(out, ":", 2)[0])
+		drain()
+	}
 	for _, a := range []string{"pdfmetrics", "pdfmetrics,write,subset,pdfmetrics", "pdfmetrics,ascffwrite,glyphwidthpdf,glyphbboxpdf,pdfmetrics"} {
 		th := c.Rng.Range(8, 16)
 		out := c.Case(Direct, "conc.parallel", fmt.Sprintf("font=cidread threads=%d ops=%s seed=%d", th, a, c.Rng.U64()>>1), true)
